@@ -389,11 +389,6 @@ def Acyclic (m : Dict Str) : Prop := ∃ rk, RankedBy rk m
 def Closed (m : Dict Str) : Prop :=
   ∀ k body, dget m k = some body → ∀ n ∈ phNames body, (dget m n).isSome
 
-def depthL (rk : Str → Nat) (l : List Str) : Nat := l.foldr (fun n a => max (rk n + 1) a) 0
-
-/-- one more than the highest rank among the placeholders of the text; 0 for a text without placeholders -/
-def depth (rk : Str → Nat) (s : Str) : Nat := depthL rk (phNames s)
-
 theorem depthL_ge (rk : Str → Nat) (l : List Str) (n : Str) (h : n ∈ l) : rk n + 1 ≤ depthL rk l := by
   induction l with
   | nil => cases h
